@@ -43,6 +43,7 @@ func main() {
 	replay := fs.String("replay", "", "replay an ops file instead of generating")
 	name := fs.String("name", "", "output base name (default: family)")
 	n := fs.Int("n", 0, "case count override")
+	journal := fs.Bool("journal", false, "before every operation write the current trace (since the last reset) to <name>.current: after a crash of the process the file holds the trace that killed it")
 	fs.Parse(os.Args[2:])
 	sd, _ := strconv.ParseUint(*seed, 10, 64)
 	f, ok := families[fam]
@@ -58,7 +59,15 @@ func main() {
 	ex := f.NewExec(c, o)
 	// every operation runs under a watchdog: an operation that does not return (deadlock, endless wait)
 	// is the observation "HANG…", after which the run stops (the stuck goroutine may hold locks)
+	var trace []string
 	emit := func(fields ...string) {
+		if *journal {
+			if (len(fields) > 1 && fields[1] == "reset") || fields[0] == "reset" {
+				trace = trace[:0]
+			}
+			trace = append(trace, strings.Join(fields, "\t"))
+			os.WriteFile(c.out+"/"+c.name+".current", []byte(strings.Join(trace, "\n")+"\n"), 0o644)
+		}
 		res := make(chan string, 1)
 		go func() { res <- ex(fields) }()
 		select {
